@@ -54,6 +54,10 @@ def generate(seed, tier):
                       'extra_branches': rng.random() < 0.2,
                       'skew_ms': rng.choice([0, 0, 1000, -2000, 5000, -9000, 9000]),
                       'genesis_only': rng.random() < 0.12})
+    # a node behind NAT: it dials out, nobody can dial it and nobody learns its address from peer exchange
+    if topo in ('pair', 'line', 'star') and rng.random() < 0.35:
+        nodes[n - 1]['listen'] = False
+    silent = {'node': rng.randrange(n), 'blocks': rng.randint(1, 3)} if rng.random() < 0.5 else None
     faulty = rng.random() < 0.5
     faults = []
     t_stop = 0
@@ -66,7 +70,7 @@ def generate(seed, tier):
                            'a': rng.randrange(1000)})
         t_stop = t + 1000
     return {'config': {'n': n, 'topology': topo, 'prefix': prefix, 'branches': branches, 'fresh': fresh, 'nodes': nodes,
-                       'faulty': faulty, 't_stop': t_stop, 'tx_spec': LC.gen_tx_spec(rng), 'origin': rng.randrange(n),
+                       'faulty': faulty, 't_stop': t_stop, 'silent_growth': silent, 'tx_spec': LC.gen_tx_spec(rng), 'origin': rng.randrange(n),
                        'profile': {'lat_max': rng.choice([5, 50, 200, 800])}},
             'ops': faults}
 
@@ -200,7 +204,7 @@ def execute(script):
             cs = state_for(cfg['nodes'][i])
             start_max = max(start_max, cs.head().height)
             peers = [('10.0.0.%d' % (j + 1), 2412) for j in neighbours(cfg['topology'], n, i)]
-            nd.boot(cs, peers=peers)
+            nd.boot(cs, peers=peers, listen=cfg['nodes'][i].get('listen', True))
             instrument(nd)
         target_height = start_max
 
@@ -271,7 +275,7 @@ def execute(script):
                     peers = [('10.0.0.%d' % (j + 1), 2412) for j in neighbours(cfg['topology'], n, f['node'] % n)]
                 finally:
                     k.current = None
-                nd.boot(cs2, peers=peers)
+                nd.boot(cs2, peers=peers, listen=cfg['nodes'][f['node'] % n].get('listen', True))
                 instrument(nd)
                 res.bump('fault:restart')
         if res.violations:
@@ -325,6 +329,40 @@ def execute(script):
                     return res
                 cur = cs.block_by_hash[cur.previous_block_hash]
                 cnt += 1
+        # ---- silent growth: one node obtains further blocks without announcing them (as after a bulk download from a
+        #      peer outside this network); the others have to find them by polling, also peers that answered "nothing new" before
+        if cfg.get('silent_growth'):
+            k.run(k.now + 5000)
+            g = nodes[cfg['silent_growth'].get('node', 0) % n]
+            cmg = g.lp.chain_manager
+            k.current = g
+            bs.DefaultBlockStore.instance = g.store
+            try:
+                for j in range(cfg['silent_growth'].get('blocks', 1)):
+                    csg = cmg.coinstate
+                    now_g = int(g.clock_s())
+                    if csg.head().timestamp + 1 > now_g + 25:
+                        break
+                    nb = W.mine_honest(csg, [], W.key(9 + j), max(csg.head().timestamp + 1, now_g - 5 + j))
+                    cmg.set_coinstate(csg.add_block(nb, now_g))
+                    g.lp.disk_interface.save_block(nb)
+                    g.lp.disk_interface.flush_blocks()
+                    target_height = max(target_height, nb.height)
+            finally:
+                k.current = None
+            res.bump('probe:silent_growth')
+            t_grow = k.now
+            k.run(k.now + L, stop=lambda: converged() or storm())
+            if loop_errors() or relay_violation():
+                return res
+            if not converged():
+                res.violate(PROP, 'C10/heads-did-not-converge',
+                            'blocks that one node obtained without announcing them were not fetched by the others within %d virtual s: '
+                            'head heights %s, greatest %d (topology %s)' % (
+                                L // 1000, [nd.lp.chain_manager.coinstate.head().height for nd in nodes], target_height, cfg['topology']))
+                return res
+            res.bump('probe:silent_growth_found_ms', k.now - t_grow)
+
         # ---- tie-break: one node mines a block, everyone must adopt it
         k.run(k.now + 3000)
         miner = nodes[cfg.get('origin', 0) % n]
@@ -448,7 +486,10 @@ def execute(script):
             return res
         res.bump('probe:relay_quiescent')
         forkd = [len(b) for b in branch_tips]
-        res.distinct.add('net:%d:%s:%s:%s:%s' % (n, cfg['topology'], sorted(min(x, 11) // 3 for x in forkd), cfg['faulty'], cfg['fresh']))
+        res.distinct.add('net:%d:%s:%s:%s:%s:%s' % (n, cfg['topology'], sorted(min(x, 11) // 3 for x in forkd), cfg['faulty'], cfg['fresh'],
+                                               cfg['nodes'][n - 1].get('listen', True)))
+        if not cfg['nodes'][n - 1].get('listen', True):
+            res.bump('probe:node_behind_nat')
         res.sample = {'nodes': n, 'topology': cfg['topology'], 'branch_lengths': forkd, 'prefix': cfg['prefix'],
                       'virtual_s_to_converge': (k.now - t_faults_stop) // 1000}
     except EventStorm as e:
